@@ -42,10 +42,11 @@ import shutil
 import typing
 
 import vf.gen as gen
-from vf.core import REPO, Bag, Ctx, HarnessError, stable_hash
+from vf.core import REPO, Bag, Ctx, HarnessError, load_known_findings, match_finding, stable_hash
 
 # ------------------------------------------------------------------------------------------------ the space
 LANGS = ["c", "cpp", "py", "html"]
+EXPERIMENTAL = ("cpp", "html")  # not "stable_support" in the pinned properties.yaml: need --experimental-languages
 SUPPORT = ["always", "never", "as-needed", "only"]
 OMIT = [0, 1]
 NSTYPES = [0, 1]
@@ -114,6 +115,13 @@ def cfg_id(c: dict) -> str:
     return "/".join(f"{k}={c[k]}" for k in DIMS)
 
 
+def _non_default(c: dict) -> int:
+    return (
+        (c["support"] != "as-needed") + c["omit"] + c["nst"] + (c["tpl"] != "builtin") * (1 + (c["tpl"] == "user+support"))
+        + (c["ext"] != "default") + (c["stem"] != "default") + (c["nsset"] != "flat")
+    )
+
+
 def path_style(c: dict) -> str:
     return "rel" if stable_hash("pathstyle:" + cfg_id(c)) % 2 else "abs"
 
@@ -163,7 +171,7 @@ _LOADS: typing.List[str] = []  # resolved file names handed out by the template 
 _VIRTUAL: typing.Dict[str, typing.Callable[[str], str]] = {}  # resolved file name -> content mutation
 _HOOKED = False
 _COMPILE_CACHE: typing.Dict[tuple, typing.Any] = {}  # (source, name, filename, raw, defer_init) -> code object
-_CACHE_ON = [False]
+_MEMO = ["off"]  # off | record (compile normally, remember the result) | use (look up first)
 
 
 class _ModShim:
@@ -206,19 +214,20 @@ def _install_hooks() -> None:
 
     nl.DSDLTemplateLoader.get_source = get_source  # type: ignore[method-assign]
 
-    # Template compilation is 80% of a run.  For the mutant runs of oracle 3 only, compiled code objects are
-    # memoised per (source text, name, file name) within ONE configuration (the cache is emptied between
-    # configurations, so every environment setting is the same for all users of an entry); before it is relied
-    # upon, an unmutated cached run is compared with the uncached baseline.
+    # Template compilation is 80% of a run.  The first series of no-write modes and the real run are executed
+    # untouched (their compiled code objects are only remembered); from then on (second real run, second series,
+    # mutant runs) compiled code objects are memoised per (source text, name, file name) within ONE configuration
+    # (the memo is emptied between configurations, so every environment setting is the same for all users of an
+    # entry).  The second real run, which is served from the memo, must reproduce the first byte for byte.
     import nunavut.jinja.jinja2.environment as je
 
     orig_compile = je.Environment.compile
 
     def compile_(self: typing.Any, source: typing.Any, name: typing.Any = None, filename: typing.Any = None, raw: bool = False, defer_init: bool = False) -> typing.Any:
-        if not _CACHE_ON[0] or not isinstance(source, str):
+        if _MEMO[0] == "off" or not isinstance(source, str):
             return orig_compile(self, source, name, filename, raw, defer_init)
         key = (source, name, filename, raw, defer_init)
-        code = _COMPILE_CACHE.get(key)
+        code = _COMPILE_CACHE.get(key) if _MEMO[0] == "use" else None
         if code is None:
             code = orig_compile(self, source, name, filename, raw, defer_init)
             _COMPILE_CACHE[key] = code
@@ -294,7 +303,7 @@ def build_argv(c: dict, sb: pathlib.Path, flags: typing.Sequence[str]) -> typing
 
     root, lookups, _ = DSDL_SETS[c["nsset"]]
     a = ["--target-language", c["lang"]]
-    if c["lang"] == "html":
+    if c["lang"] in EXPERIMENTAL:
         a.append("--experimental-languages")
     a += ["--outdir", P("out"), "--generate-support", c["support"]]
     if c["omit"]:
@@ -431,7 +440,7 @@ def evaluate(c: dict, sb: pathlib.Path, only_subject: typing.Optional[str] = Non
     _install_hooks()
     _VIRTUAL.clear()
     _COMPILE_CACHE.clear()
-    _CACHE_ON[0] = False
+    _MEMO[0] = "record"
     cid = cfg_id(c)
     bag = Bag()
     stats: typing.Dict[str, int] = {}
@@ -440,10 +449,10 @@ def evaluate(c: dict, sb: pathlib.Path, only_subject: typing.Optional[str] = Non
     def count(k: str, n: int = 1) -> None:
         stats[k] = stats.get(k, 0) + n
 
-    def case(**kw: typing.Any) -> dict:
-        d = {"config": dict(c)}
+    def report(sig: dict, what: str, **kw: typing.Any) -> None:
+        d = {"config": dict(c), "oracle": sig["kind"]}
         d.update(kw)
-        return d
+        bag.add(sig, d, what)
 
     build_sandbox(c, sb)
     style = path_style(c)
@@ -510,10 +519,10 @@ def evaluate(c: dict, sb: pathlib.Path, only_subject: typing.Optional[str] = Non
     # ---- oracle 2 (absent state)
     def report_nowrite(dl: typing.List[typing.Tuple[str, str, typing.List[str]]]) -> None:
         for state, mode, d in dl:
-            bag.add(
+            report(
                 {"kind": "no_write_mode_touched_disk", "mode": mode, "outdir": state, "change": _diff_feature(d)},
-                case(mode=mode, outdir=state),
                 f"--{mode} with the output directory {state}: {'; '.join(d[:4])}{' ...' if len(d) > 4 else ''}  [{cid}]",
+                mode=mode, outdir=state,
             )
 
     report_nowrite(diffs)
@@ -521,10 +530,10 @@ def evaluate(c: dict, sb: pathlib.Path, only_subject: typing.Optional[str] = Non
     # ---- oracle 1
     def check_outputs(r: Run, state: str) -> None:
         if r.rc != 0:
-            bag.add(
+            report(
                 {"kind": "mode_failed_although_generation_succeeds", "mode": "list-outputs"},
-                case(mode="list-outputs", outdir=state),
                 f"--list-outputs fails ({r.exc or r.err.strip()[-120:]}) although the real run succeeds  [{cid}]",
+                mode="list-outputs", outdir=state,
             )
             return
         listed = _parse_list(r.out, sb)
@@ -532,17 +541,17 @@ def evaluate(c: dict, sb: pathlib.Path, only_subject: typing.Optional[str] = Non
             count("list_outputs_has_duplicates")
         for p in sorted(set(listed) - created):
             relp = os.path.relpath(p, str(sb.resolve()))
-            bag.add(
+            report(
                 {"kind": "listed_output_not_created", "category": _category(c, relp), "support": c["support"], "omit": c["omit"]},
-                case(mode="list-outputs", outdir=state, path=relp),
                 f"--list-outputs names {relp} which the real run does not create  [{cid}]",
+                mode="list-outputs", outdir=state, path=relp,
             )
         for p in sorted(created - set(listed)):
             relp = os.path.relpath(p, str(sb.resolve()))
-            bag.add(
+            report(
                 {"kind": "created_output_not_listed", "category": _category(c, relp), "support": c["support"], "omit": c["omit"]},
-                case(mode="list-outputs", outdir=state, path=relp),
                 f"the real run creates {relp} which --list-outputs does not name  [{cid}]",
+                mode="list-outputs", outdir=state, path=relp,
             )
 
     check_outputs(runs0["list-outputs"], "absent")
@@ -550,10 +559,10 @@ def evaluate(c: dict, sb: pathlib.Path, only_subject: typing.Optional[str] = Non
     li = runs0["list-inputs"]
     listed_inputs: typing.Set[str] = set()
     if li.rc != 0:
-        bag.add(
+        report(
             {"kind": "mode_failed_although_generation_succeeds", "mode": "list-inputs"},
-            case(mode="list-inputs", outdir="absent"),
             f"--list-inputs fails ({li.exc or li.err.strip()[-120:]}) although the real run succeeds  [{cid}]",
+            mode="list-inputs", outdir="absent",
         )
     else:
         listed_inputs = set(_parse_list(li.out, sb))
@@ -561,7 +570,9 @@ def evaluate(c: dict, sb: pathlib.Path, only_subject: typing.Optional[str] = Non
         if runs0[mode].rc != 0:
             count("mode_fails_although_generation_succeeds:" + mode)
 
-    # ---- the unmutated run must be reproducible, otherwise oracle 3 means nothing
+    # ---- the unmutated run must be reproducible (now with memoised template compilation), otherwise oracle 3
+    # means nothing
+    _MEMO[0] = "use"
     shutil.rmtree(sb / "out", ignore_errors=True)
     again = run_cli(build_argv(c, sb, []), sb)
     count("cli_runs")
@@ -569,7 +580,10 @@ def evaluate(c: dict, sb: pathlib.Path, only_subject: typing.Optional[str] = Non
     base2 = {p: h for p, h in post2.items() if p not in pre}
     if again.rc != 0 or base2 != baseline:
         bad = sorted(set(base2) ^ set(baseline)) + sorted(p for p in baseline if p in base2 and base2[p] != baseline[p])
-        raise HarnessError(f"{cid}: two identical real runs differ ({bad[:3]}): nondeterminism not owned by the harness")
+        raise HarnessError(
+            f"{cid}: two identical real runs differ ({bad[:3]}): nondeterminism not owned by the harness, or the "
+            "template compilation memo is not transparent"
+        )
 
     # ---- series 2: output directory populated (files are read-only as the real run leaves them)
     runs1, diffs1 = series("populated")
@@ -595,11 +609,37 @@ def evaluate(c: dict, sb: pathlib.Path, only_subject: typing.Optional[str] = Non
         now = _files(sb)
         return {p: h for p, h in now.items() if p not in pre}
 
-    for s in _subjects(c, sb):
-        if only_subject is not None and s.label != only_subject:
-            continue
+    subjects = [s for s in _subjects(c, sb) if only_subject is None or s.label == only_subject]
+
+    # Sandbox templates the loader never handed out during the real run are first mutated all together: if the
+    # output stays the same none of them influences it (the usual case); otherwise each one is tried on its own.
+    cold = [s for s in subjects if not s.what.endswith("_dsdl") and s.origin == "sandbox" and str(s.path.resolve()) not in loaded]
+    cold_silent: typing.Set[str] = set()
+    if len(cold) > 1:
+        originals: typing.Dict[pathlib.Path, str] = {}
+        try:
+            for s in cold:
+                try:
+                    text = s.path.read_text(encoding="utf-8")
+                except UnicodeDecodeError:
+                    continue
+                originals[s.path] = text
+                s.path.write_text(_template_mutations(text)[0][1](text), encoding="utf-8")
+            outs = regenerate()
+        finally:
+            for path, text in originals.items():
+                path.write_text(text, encoding="utf-8")
+        if outs == baseline:
+            cold_silent = {s.label for s in cold if s.path in originals}
+            count("never_loaded_templates_mutated_together")
+
+    for s in subjects:
         key = str(s.path.resolve())
         count("subjects:" + s.what + ":" + s.origin)
+        if s.label in cold_silent:
+            count("not_loaded:" + s.what + ":" + s.origin)
+            count("no_influence_shown:" + s.what + ":" + s.origin)
+            continue
         if s.what.endswith("_dsdl"):
             original = s.path.read_text()
             if SLOT not in original:
@@ -651,10 +691,10 @@ def evaluate(c: dict, sb: pathlib.Path, only_subject: typing.Optional[str] = Non
         if not s.what.endswith("_dsdl"):
             sig["origin"] = "user_dir" if s.origin == "sandbox" else "builtin"
             sig["suffix"] = s.path.suffix
-        bag.add(
+        report(
             sig,
-            case(subject=s.label, mutation=influence),
             f"{s.label} changes the generated output ({influence}) but --list-inputs does not name it  [{cid}]",
+            subject=s.label, mutation=influence,
         )
 
     # leave a sample of what was explored
@@ -709,6 +749,7 @@ def run(ctx: Ctx) -> int:
     nontrivial = 0
     value_seen: typing.Dict[str, set] = {d: set() for d in DIMS}
     fail_reasons: typing.Dict[str, int] = {}
+    best: typing.Dict[str, typing.Tuple[tuple, typing.Any, int]] = {}
     for r in results:
         if "harness_error" in r:
             raise HarnessError(r["harness_error"])
@@ -727,22 +768,25 @@ def run(ctx: Ctx) -> int:
             value_seen[d].add(r["cfg"][d])
         if r["influences"] > 0:
             nontrivial += 1
-        ctx.bag.merge(r["bag"])
-    for r in results:
-        if r.get("sample") and len(ctx.samples) < 6 and (len(ctx.samples) == 0 or r["cfg"]["lang"] != results[0]["cfg"]["lang"] or len(ctx.samples) < 2):
+        # the case kept per signature is the one in the most ordinary configuration (fewest options off default)
+        rank = (_non_default(r["cfg"]), LANGS.index(r["cfg"]["lang"]), r["id"])
+        for key, v in r["bag"].v.items():
+            cur = best.get(key)
+            if cur is None:
+                best[key] = (rank, v, v.count)
+            elif rank < cur[0]:
+                best[key] = (rank, v, cur[2] + v.count)
+            else:
+                best[key] = (cur[0], cur[1], cur[2] + v.count)
+    for key in sorted(best):
+        _, v, n = best[key]
+        ctx.violation(v.sig, v.case, v.what, n)
+    seen_kinds = set()
+    for r in sorted((r for r in results if r.get("sample")), key=lambda r: (_non_default(r["cfg"]), r["id"])):
+        kind = (r["cfg"]["lang"], r["cfg"]["tpl"] != "builtin")
+        if kind not in seen_kinds and len(ctx.samples) < 6 and r["influences"] > 0:
+            seen_kinds.add(kind)
             ctx.samples.append(r["sample"])
-
-    # every value of every option must have been seen in a configuration that generated, and every class of
-    # mutation subject must have shown influence at least once, otherwise the run proves nothing
-    for d in DIMS:
-        missing = [v for v in DOMAINS[d] if v not in value_seen[d]]
-        if missing:
-            raise HarnessError(f"vacuous exploration: no successful generation with {d} in {missing}")
-    for need in ("root_dsdl:sandbox", "lookup_dsdl:sandbox", "template:sandbox", "template:builtin", "support_template:sandbox", "support_template:builtin"):
-        if ctx.stats.get("influence_shown:" + need, 0) == 0:
-            raise HarnessError(f"vacuous exploration: no mutation of a {need} file ever changed the output")
-    if ctx.stats.get("no_influence_shown:lookup_dsdl:sandbox", 0) == 0:
-        raise HarnessError("vacuous exploration: the unused lookup file (negative control) was never exercised")
 
     # re-execute every distinct violation once from its recorded minimal case (DESIGN section 1, determinism)
     vs = list(ctx.bag.v.items())
@@ -752,6 +796,22 @@ def run(ctx: Ctx) -> int:
             raise HarnessError("re-execution: " + rr["harness_error"])
         if key not in rr["bag"].v:
             raise HarnessError(f"violation {v.sig} did not reproduce from its recorded case {v.case}")
+
+    # Vacuity: every value of every option must have been seen in a configuration that generated, and every class
+    # of mutation subject must have shown influence at least once (and the negative control none), otherwise a
+    # silent run proves nothing.  Violations that are not known findings are reported first (exit 1 beats exit 2).
+    findings = load_known_findings(ctx.pid)
+    unknown = [v for v in ctx.bag.v.values() if match_finding(findings, v) is None]
+    if not unknown:
+        for d in DIMS:
+            missing = [v for v in DOMAINS[d] if v not in value_seen[d]]
+            if missing:
+                raise HarnessError(f"vacuous exploration: no successful generation with {d} in {missing}")
+        for need in ("root_dsdl:sandbox", "lookup_dsdl:sandbox", "template:sandbox", "template:builtin", "support_template:sandbox", "support_template:builtin"):
+            if ctx.stats.get("influence_shown:" + need, 0) == 0:
+                raise HarnessError(f"vacuous exploration: no mutation of a {need} file ever changed the output")
+        if ctx.stats.get("no_influence_shown:lookup_dsdl:sandbox", 0) == 0:
+            raise HarnessError("vacuous exploration: the unused lookup file (negative control) was never exercised")
 
     ctx.stats.update(
         configurations_in_space=len(space),
@@ -800,8 +860,13 @@ def replay(ctx: Ctx, case: dict) -> int:
     c = case["config"]
     sb = ctx.scratch / "replay"
     r = evaluate(c, sb, only_subject=case.get("subject", "<none>"))
-    print(f"configuration {cfg_id(c)}: status={r['status']} paths={path_style(c)}")
-    print("  nnvg " + " ".join(build_argv(c, sb, ["<mode>"])))
+    print(f"configuration {cfg_id(c)}: status={r['status']} paths={path_style(c)} cwd=<sandbox>")
+    print("  nnvg " + " ".join(build_argv(c, pathlib.Path("<sandbox>"), ["<mode>"])))
+    hit = 0
     for v in r["bag"].v.values():
-        print(f"  VIOLATION {v.sig}: {v.what}")
-    return 1 if len(r["bag"]) else 0
+        same = case.get("oracle") in (None, v.sig["kind"])
+        print(f"  {'VIOLATION' if same else 'other violation of this configuration'} {v.sig}: {v.what}")
+        hit += 1 if same else 0
+    if not hit:
+        print("  no violation of the recorded kind")
+    return 1 if hit else 0
